@@ -18,19 +18,38 @@ SEQ = {
  'C14': ("as C02 with 2 subscribers of the same Observable value (sequentially over cold sources whose k-th subscription differs, interleaved on hot sources): every subscriber must see the definition's output for its own input, and tap side effects fire for every subscription", '6 C14'),
  'C17': ("as C01 with reference-counted tokens captured by the subscriber's callbacks and by every closure handed to an operator: after the subscription ended and all handles were dropped the tokens must be released; the L1 model predicts the count from an ownership graph derived from the heap", '6 C17'),
 }
+CNOTE = ("Bounded: schedules with at most 2 (quick) / 3 (thorough) preemptions at lock-operation schedule points plus seeded random schedules, 2-3 threads, "
+         "scripts of <= 3 events per thread as listed in lib/conccheck.py; design models bounded as in lib/plans.py. Trusted: TLC, the TLA+ modules, the facade runtime rt/arx_vstd "
+         "(writer-preferring RwLock model), the harness.")
+CTECH = ("explicit TLA+ specs: lock-operation-level L1 design model (SinkConc / SubjectConc, PlusCal or TLA+) model-checked by TLC for the property; the real crate executed under a controlled "
+         "scheduler over all bounded-preemption schedules; every distinct recorded trace judged by TLC trace validation against the L2 monitors of ConcProps (ConcTrace)")
+CONC = {
+ 'C11': ("TLC checks the lock-level design model of the subscriber slots / controller under racing emitters; the real merge / flat_map / zip / concat / amb (with and without take downstream) are executed with 2-3 emitting threads under every schedule within the preemption bound and each trace is validated by TLC: item conservation, per-input order, tuple pairing, one winner for amb, take(n) <= n, exactly one complete after the last item, never two terminals", '6 C11'),
+ 'C12': ("TLC checks the lock-level design model SubjectConc (producer / late subscriber / unsubscriber on plain, Behavior and Replay subjects: no duplicate, no gap, order); the real subjects are executed with 1-2 producer threads, a subscribing and an unsubscribing thread under every schedule within the bound and each trace is validated by TLC", '6 C12'),
+ 'C19': ("TLC checks the lock-level design model SinkConc for all scripts of 2-3 threads (at most one terminal, nothing whose delivery started after the terminal returned, exactly one terminal survives a race); every multi-input operator and the four subject types are executed with racing terminals / items under every schedule within the bound and each trace is validated by TLC", '6 C19'),
+}
+SEQ['C05'] = (SEQ['C05'][0].replace("(single-thread part; the cross-thread part is decided with C19's machinery)", "; cross-thread part: TLC checks the design model SinkConc (UnsubStops) and validates the traces of every bounded-preemption schedule of an unsubscribing thread racing 1-2 emitters through map / take / merge / scan and the subjects"), SEQ['C05'][1])
 checks = []
+for pid, (text, ref) in CONC.items():
+    checks.append({"property_id": pid, "quick_cmd": "./check %s quick" % pid, "thorough_cmd": "./check %s thorough" % pid,
+                   "evidence_file": "/verif/evidence/%s.json" % pid, "replay_cmd_template": "./check --replay {path}", "engine": "tlc-conc",
+                   "level_claimed": {"category": "model_checking", "text": text, "design_ref": "DESIGN.md " + ref}, "level_note": CNOTE, "technique": CTECH})
 for pid, (text, ref) in SEQ.items():
     checks.append({"property_id": pid, "quick_cmd": "./check %s quick" % pid, "thorough_cmd": "./check %s thorough" % pid,
                    "evidence_file": "/verif/evidence/%s.json" % pid, "replay_cmd_template": "./check --replay {path}", "engine": "tlc-seq",
-                   "level_claimed": {"category": "model_checking", "text": text, "design_ref": "DESIGN.md " + ref}, "level_note": NOTE, "technique": TECH})
+                   "level_claimed": {"category": "model_checking", "text": text, "design_ref": "DESIGN.md " + ref},
+                   "level_note": NOTE + (" " + CNOTE if pid == 'C05' else ""), "technique": TECH + (" || " + CTECH if pid == 'C05' else "")})
+checks.sort(key=lambda c: c['property_id'])
 ALL = ['C%02d' % i for i in range(1, 20)]
 claimed = [c['property_id'] for c in checks]
 m = {"version": 1, "setup_cmd": "sh tools/setup.sh",
      "hooks": {"guard": "none (no hook in /repo: every check instruments a scratch copy of the current working tree; DESIGN.md 4.1)",
                "enable": "tools/instrument.sh copies /repo's working tree, rewrites std:: paths to the facade crate rt/arx_vstd and appends read-only vf_observer_count accessors; /repo itself is never touched",
                "baseline_off_cmd": "cd /repo && cargo test --workspace --no-fail-fast --offline", "source_commits": [], "add_only": True},
-     "engines": [{"name": "tlc-seq", "path": "/verif/lib/seqcheck.py", "serves_properties": claimed,
-                  "kind_free_text": "TLC model checking of spec/RxSeq*.tla, replay harness rt/harness, TLC trace validation spec/RxSeqTrace.tla"}],
+     "engines": [{"name": "tlc-seq", "path": "/verif/lib/seqcheck.py", "serves_properties": [c for c in claimed if c in SEQ],
+                  "kind_free_text": "TLC model checking of spec/RxSeq*.tla, replay harness rt/harness, TLC trace validation spec/RxSeqTrace.tla"},
+                 {"name": "tlc-conc", "path": "/verif/lib/conccheck.py", "serves_properties": [c for c in claimed if c in CONC] + ['C05'],
+                  "kind_free_text": "TLC model checking of the lock-level design models, controlled-scheduler exploration of the real crate (rt/arx_vstd), TLC trace validation spec/ConcTrace.tla"}],
      "checks": checks,
      "not_applicable": [{"property_id": p, "reason": "specification and harness for this property are still being built in this round; not claimed yet"} for p in ALL if p not in claimed],
      "notes": "Alarm policy, known findings and fix: commits are described in DESIGN.md 5 and known_findings.json."}
